@@ -175,7 +175,14 @@ pub struct Ctl {
     pub sink_script: RefCell<BTreeMap<String, VecDeque<SinkAct>>>,
     pub snapper: RefCell<Option<Snapper>>,
     pub stats: RefCell<BTreeMap<&'static str, u64>>,
+    /// (transaction, contract frames run in it so far): the simulator's stand-in for the block gas limit
+    pub frames_in_tx: Cell<(u64, u32)>,
 }
+
+/// A real chain stops a transaction when its gas runs out; cw-multi-test has no gas. Without a bound a contract
+/// that keeps re-entering itself recurses until the simulator's stack is gone. 160 contract frames in one
+/// transaction is far beyond anything the unmodified suite does in these worlds (the most is a few dozen).
+pub const MAX_FRAMES_PER_TX: u32 = 160;
 
 impl Ctl {
     pub fn new() -> Rc<Ctl> {
@@ -188,6 +195,7 @@ impl Ctl {
             sink_script: RefCell::new(BTreeMap::new()),
             snapper: RefCell::new(None),
             stats: RefCell::new(BTreeMap::new()),
+            frames_in_tx: Cell::new((0, 0)),
         })
     }
     pub fn bump(&self, k: &'static str) {
@@ -255,7 +263,14 @@ impl Probe {
             }
             Entry::Reply => None,
         };
-        let outcome = if fault == Some(FaultMode::Early) {
+        let (t, n) = self.ctl.frames_in_tx.get();
+        let n = if t == self.ctl.tx.get() { n + 1 } else { 1 };
+        self.ctl.frames_in_tx.set((self.ctl.tx.get(), n));
+        let outcome = if n > MAX_FRAMES_PER_TX {
+            // out of gas: the frame fails before it runs
+            self.ctl.bump("tx_out_of_gas");
+            Outcome::Err
+        } else if fault == Some(FaultMode::Early) {
             Outcome::FaultEarly
         } else {
             let r = catch_unwind(AssertUnwindSafe(|| {
